@@ -69,6 +69,14 @@ def run(cx):
             if fins:
                 n += len(fins)
                 cx.followed_by(inst, ob, fins, call_locs(ob, "HashMap::remove", r"arg1\.clients"), "state = Fin without clients.remove", "clients.remove(address)")
+        # a RemoteClient cannot take itself out of the server's address map: outside the server nothing may make a
+        # server-side client terminal (its slot would never be released)
+        for ob in R.all_bodies():
+            if not ob.path.startswith("server::remote_client::"):
+                continue
+            for loc, s2 in ob.assigns():
+                if s2["pl"]["p"] and show(ob.place_expr(s2["pl"])).endswith(".state") and show(ob.rvalue_expr(s2["rv"])).startswith("State::Fin"):
+                    inst.violation(ob.path, "state = Fin outside the server", "%s makes a server-side client terminal without the server removing it from its address map: the slot is never released" % ob.path.split("::")[-1], at=ob.span_at(loc))
         st = R.body("server::Server::step")
         ret = call_sites(st, "Vec::retain", r"arg1\.active_clients")
         for loc, lab in ret:
@@ -95,6 +103,24 @@ def run(cx):
         if not ok:
             inst.violation(ia.path, "is_active", "RemoteClient::is_active returns true in a state other than Active")
 
+
+def promotion_pairing(cx, iid):
+    """T2: a promoted connection is serviced and counted: in handle_handshake_ack every write of State::Active is followed
+    on all paths by the push into active_clients (a connection that is Active but not in the list is never flushed, stepped,
+    timed out or counted, and keeps its slot for ever) and by the Connect event."""
+    R = cx.R
+    with cx.instance(iid, "T2 PAIR", "handle_handshake_ack: state = Active is followed on every path by active_clients.push and by Connect", floor=1) as inst:
+        b = R.body("server::Server::handle_handshake_ack")
+        acts = []
+        for loc, s in b.assigns():
+            if s["pl"]["p"] and show(b.place_expr(s["pl"])).endswith(".state") and show(b.rvalue_expr(s["rv"])).startswith("State::Active"):
+                acts.append((loc, "state = Active"))
+        if not acts:
+            inst.violation(b.path, "state = Active", "promotion to Active not found in handle_handshake_ack (anchor)")
+            return
+        from rules import event_pushes
+        cx.followed_by(inst, b, acts, call_locs(b, "Vec::push", r"arg1\.active_clients"), "promotion without entering the active list", "active_clients.push")
+        cx.followed_by(inst, b, acts, [l for l, _ in event_pushes(b, r"Connect")], "promotion without Connect", "events_out.push(Connect)")
 
 def timers_scheduled(cx, iid):
     """capacity returns: every entry into a state that only a timer can end (Pending, Closing,
@@ -183,6 +209,7 @@ def run(cx):
     active_timeout_sweep(cx, "C17.g")
     from props.shared import config_verbatim
     config_verbatim(cx, "C17.h")
+    promotion_pairing(cx, "C17.i")
 
 
 SELFTEST = [
